@@ -38,7 +38,7 @@ var scripts = []script{
 		words: []string{"the", "and", "a", "of", "to", "le", "la", "les", "de", "der", "die", "das", "und", "el", "los", "que", "il", "lo", "gli", "een", "het", "och", "og", "ja", "on", "és", "şi", "bir", "ve",
 			"running", "houses", "l'avion", "qu'il", "dell'arte", "http://example.com/a?b=c", "user.name+tag@example.org", "@handle", "#hashTag9", "www.x.io/p", "camelCaseWord", "HTTPServer2Go", "ABCdef123ghi", "x1y2", "3.14", "1e9", "0x1F",
 			"Istanbul'da", "Türkiye’nin", "<b>bold</b>", "<a href=\"x\">", "<!doctype html>", "a<b", "&amp;", "naïve", "coöperate", "Straße", "ǅ", "ǈ", "ⱥ", "İ", "ΟΔΟΣ", "ΑΣ"},
-		seps: []string{" ", " ", " ", "  ", ", ", ". ", "\n", "\t", "-", "_", "'", "’", "/", " - ", "; ", "!", "?", ":", " ", " ", "　", "\u0085", "​", "‌", "­"}},
+		seps: []string{" ", " ", " ", "  ", ", ", ". ", "\n", "\t", "-", "_", "'", "’", "/", " - ", "; ", "!", "?", ":", " ", " ", "　", "\u0085", "​", "‌", "\u00ad"}},
 	{name: "arabic", letters: []rune("ابتثجحخدذرزسشصضطظعغفقكلمنهويءآأؤإئةىًٌٍَُِّْـ٠١٢٣٤٥٦٧٨٩"),
 		prefixes: []string{"ال", "وال", "بال", "كال", "فال", "لل", "و"},
 		suffixes: []string{"ها", "ان", "ات", "ون", "ين", "يه", "ية", "ه", "ة", "ي"},
@@ -336,6 +336,24 @@ func (h) Gen(r *hlib.Rand, tier string, scale int, emit func(string)) {
 		emit(l)
 	}
 
+	// 1c. re-entrancy: ONE value of every analyzer (bundled and x-*) and of every configurable filter used by 8
+	//     goroutines at once, on ideographic / Latin / mixed texts (see conc.go)
+	cjkS, latS := &scripts[len(scripts)-1], &scripts[0]
+	concTexts := func() string {
+		var hs []string
+		hs = append(hs, hexOf([]byte(strings.Repeat("日本語", 20)+cjkS.text(r, 30))))
+		hs = append(hs, hexOf([]byte(latS.text(r, 25)+" 東京都 "+latS.text(r, 5))))
+		hs = append(hs, hexOf([]byte(cjkS.text(r, 12)+" "+scripts[r.Intn(len(scripts))].text(r, 8))))
+		hs = append(hs, hexOf([]byte("世界 abc こんにちは ﾊﾟｿｺﾝ 한국어")))
+		return strings.Join(hs, "+")
+	}
+	for _, a := range analyzers {
+		emit("conc " + a.name + " " + concTexts())
+	}
+
+	// 1d. translator validation: the real stemmers / normalisers / rune helpers against their translated definitions
+	genStem(r, nStage, emit)
+
 	// 2. modelled tokenizers and the other pure tokenizers on every text
 	for _, t := range texts {
 		for _, k := range []string{"letter", "ws", "alnum", "single"} {
@@ -371,6 +389,10 @@ func (h) Gen(r *hlib.Rand, tier string, scale int, emit func(string)) {
 	arts := hexList([]string{"l", "d", "qu", "j", "m", "dell", "all", "un", "L", "é", "日"})
 	stops := hexList([]string{"the", "and", "a", "ab", "и", "في", "日本", ""})
 	grid = append(grid, "unique", "reverse", "apos", "camel", "cjk:0", "cjk:1", "elision:"+arts, "elision:-", "stop:"+stops, "kwmark:"+stops)
+	for gi, g := range grid {
+		emit("concp " + []string{"unicode", "ws", "web"}[gi%3] + " " + g + " " + concTexts())
+	}
+	emit("concp unicode lower,width,cjk:1,unique " + concTexts())
 	toks := []string{"ws", "unicode", "single", "letter", "web", "renonspace", "excws"}
 	post := []string{"", "", "", "lower", "nfkd", "width", "porter"}
 	for i := 0; i < nStage*6; i++ {
@@ -434,5 +456,126 @@ func (h) Gen(r *hlib.Rand, tier string, scale int, emit func(string)) {
 			parts[k] = streamOf(ts)
 		}
 		emit(fmt.Sprintf("doc %d %s", []int{0, 1, 100, 100, 7}[r.Intn(5)], strings.Join(parts, "|")))
+	}
+}
+
+// ---------------------------------------------------------------------------------------------
+// stem / util ops (stem.go): words of the script each stemmer knows (stems of every length 0..12 under every
+// affix of the generator's lists, so that every length guard is met from both sides), accents, damaged and raw
+// bytes; rune helpers over valid and invalid runes with positions / counts inside and outside their domain
+
+var stemScript = map[string]string{"de_normalize": "latin", "de_light": "latin", "es_light": "latin", "it_light": "latin", "pt_light": "latin",
+	"fr_light": "latin", "fr_min": "latin", "ar_normalize": "arabic", "ar_stem": "arabic", "fa_normalize": "persian",
+	"ckb_normalize": "sorani", "ckb_stem": "sorani", "hi_normalize": "devanagari", "hi_stem": "devanagari"}
+
+var stemExtra = map[string][]string{
+	"de_normalize": {"ß", "aß", "ßß", "ae", "oe", "ue", "aue", "eue", "quelle", "aee", "äöüß", "Maße", "e", "ee", "aeaeae"},
+	"de_light":     {"ern", "abcern", "abcdern", "em", "abcem", "abcdes", "e", "abce", "abs", "abds", "est", "abcest", "abcdest", "abcder", "abcbst", "äàáâöòóôïìíîüùúû"},
+	"fr_light": {"x", "aux", "eaux", "chevaux", "abeaux", "issement", "abissement", "abcissement", "issant", "ement", "ivement", "abivement", "ficatrice", "abcficatrice", "ficateur", "catrice", "cateur", "atrice", "ateur", "trice",
+		"ième", "teuse", "teur", "euse", "ère", "ive", "folle", "molle", "nnelle", "nnel", "ète", "ique", "esse", "inage", "isation", "ualisation", "abcualisation", "isateur", "ation", "ition",
+		"aaaaa", "aaaaaa", "aabbccdd", "bbbbbie", "abcdie", "abcder", "abcdee", "abcdeer", "abcdd", "àáâôèéêùûîç", "11111", "....."},
+	"fr_min":   {"abcdex", "abcaux", "abcdes", "abcder", "abcdee", "abcdeé", "abcdd", "abcdsre", "aasreé", "xxxxxx", "ssssss", "rrrrrr", "eeeeee", "éééééé"},
+	"es_light": {"abcdo", "abceses", "abcces", "abcdos", "abcdas", "abcdes", "abcds", "àáâäòóôöèéêëùúûüìíîï", "abcd", "ses"},
+	"it_light": {"abcdie", "abcdhe", "abcdee", "abcdhi", "abcdii", "abcdei", "abcdia", "abcdea", "abcdio", "abcdeo", "abcde", "àáâäòóôöèéêëùúûüìíîï"},
+	"pt_light": {"abres", "abses", "ables", "abzes", "abns", "abcns", "abeis", "abéis", "abais", "abóis", "abcis", "ões", "aões", "abães", "abmente", "abcmente", "abs", "abcs",
+		"abcdinha", "abcdiaca", "abcdeira", "abcdosa", "abcdica", "abcdida", "abcdada", "abcdiva", "abcdama", "abcdona", "abcdora", "abcdesa", "abcdena", "abca", "abcde", "àáâäãòóôöõèéêëùúûüìíîïç"},
+	"ar_normalize": {"ـ", "ـــ", "اَ", "َُِّْ", "آأإ", "ىة"},
+	"ar_stem":      {"و", "وا", "واب", "وابت", "الا", "الاب", "والاب", "للاب", "ابها", "ابتها", "هاها", "الها", "وه", "وهي"},
+	"fa_normalize": {"ٔ", "ۀ", "هٔ", "ٔٔ", "یےۓکۀہ"},
+	"ckb_normalize": {"‌", "ه‌", "‌ه", "ه", "هه", "ر", "رر", "ـ", "‍", "\u200e\u200f", "\u00ad", "\ufeff", "يىكةھڒ"},
+	"ckb_stem":      {"دا", "ابجددا", "ابجدهدا", "نا", "ابجدنا", "ەوە", "مان", "یان", "تان", "ێکی", "یەکی", "ێک", "یەک", "ەکە", "کە", "ەکان", "کان", "یانی", "انی", "ان", "یانە", "انە", "ایە", "ەیە", "ە", "ی"},
+	"hi_normalize":  {"न्", "न्न्", "न", "़", "़़", "्", "‍", "‌", "ँ", "ऩऱऴक़ख़ग़ज़ड़ढ़फ़य़"},
+	"hi_stem":       {"ाएंगी", "कखाएंगी", "कखगाएंगी", "ाएगी", "कखाएगी", "ाकर", "ककर", "कखकर", "कर", "ो", "को", "कखो"},
+}
+
+func genStem(r *hlib.Rand, nStage int, emit func(string)) {
+	byName := map[string]*script{}
+	for i := range scripts {
+		byName[scripts[i].name] = &scripts[i]
+	}
+	for _, name := range stemNames {
+		s := byName[stemScript[name]]
+		var words []string
+		words = append(words, "", "a", "ab", "abc")
+		words = append(words, stemExtra[name]...)
+		// every affix under stems of length 0..8, and pairs of suffixes
+		for _, suf := range s.suffixes {
+			for k := 0; k <= 8; k += 1 + r.Intn(2) {
+				var b strings.Builder
+				for i := 0; i < k; i++ {
+					b.WriteRune(s.letters[r.Intn(len(s.letters))])
+				}
+				words = append(words, b.String()+suf)
+			}
+		}
+		for _, pre := range s.prefixes {
+			for k := 0; k <= 4; k++ {
+				var b strings.Builder
+				b.WriteString(pre)
+				for i := 0; i < k; i++ {
+					b.WriteRune(s.letters[r.Intn(len(s.letters))])
+				}
+				if len(s.suffixes) > 0 && r.Chance(40) {
+					b.WriteString(s.suffixes[r.Intn(len(s.suffixes))])
+				}
+				words = append(words, b.String())
+			}
+		}
+		for i := 0; i < nStage; i++ {
+			words = append(words, s.word(r))
+		}
+		for _, w := range words {
+			emit("stem " + name + " " + hlib.Hex([]byte(w)))
+		}
+		// malformed material
+		for i := 0; i < nStage/4+3; i++ {
+			var t []byte
+			if r.Chance(50) {
+				t = damage(r, []byte(s.word(r)))
+			} else {
+				t = rawBytes(r, r.Range(1, 14))
+			}
+			emit("stem " + name + " " + hlib.Hex(t))
+		}
+	}
+	// rune helpers
+	weird := []int{-1, -2147483648, 0xD800, 0xDFFF, 0x110000, 2147483647, 0xFFFD, 0, 0x7f, 0x80, 0x7ff, 0x800, 0xffff, 0x10000, 0x10ffff}
+	runeList := func(n int, invalid bool) string {
+		if n == 0 {
+			return "-"
+		}
+		ss := make([]string, n)
+		for i := range ss {
+			if invalid && r.Chance(40) {
+				ss[i] = strconv.Itoa(weird[r.Intn(len(weird))])
+			} else {
+				s := &scripts[r.Intn(len(scripts))]
+				ss[i] = strconv.Itoa(int(s.letters[r.Intn(len(s.letters))]))
+			}
+		}
+		return strings.Join(ss, ",")
+	}
+	for i := 0; i < nStage*2; i++ {
+		n := r.Range(0, 7)
+		rs := runeList(n, r.Chance(30))
+		emit(fmt.Sprintf("util DeleteRune %s %d", rs, r.Range(-1, n+1)))
+		emit(fmt.Sprintf("util InsertRune %s %d %d", rs, r.Range(-1, n+1), weird[r.Intn(len(weird))]))
+		emit("util BuildTermFromRunes " + rs)
+		emit(fmt.Sprintf("util BuildTermOpt %d %s", []int{0, 0, 1, 2, 3, 4, 5, 8, 30}[r.Intn(9)], rs))
+		s := &scripts[r.Intn(len(scripts))]
+		w := s.word(r)
+		if r.Chance(20) {
+			w = string(damage(r, []byte(w)))
+		}
+		emit(fmt.Sprintf("util TruncateRunes %s %d", hlib.Hex([]byte(w)), r.Range(-1, len([]rune(w))+1)))
+		suf := ""
+		if len(s.suffixes) > 0 {
+			suf = s.suffixes[r.Intn(len(s.suffixes))]
+		}
+		if r.Chance(50) && n > 0 { // a true suffix
+			emit(fmt.Sprintf("util RunesEndsWith %s %s", showRunes([]rune(w+suf)), hlib.Hex([]byte(suf))))
+		} else {
+			emit(fmt.Sprintf("util RunesEndsWith %s %s", rs, hlib.Hex([]byte(suf))))
+		}
 	}
 }
